@@ -68,12 +68,14 @@ pub struct PFont {
     pub upem: u16,
     pub cvt: Vec<i16>,
     pub glyphs: Vec<PGlyph>,
+    /// control value program (empty: no `prep` table)
+    pub prep: Vec<AOp>,
 }
 
 pub fn build(f: &PFont) -> Vec<u8> {
     let mut b = GlyfLocaBuilder::new();
     b.add_glyph(&Glyph::Empty).unwrap();
-    let (mut max_points, mut max_contours, mut max_ins) = (0, 1, 0);
+    let (mut max_points, mut max_contours, mut max_ins) = (0, 1, assemble(&f.prep).len());
     let mut metrics = vec![LongMetric::new(f.upem / 2, 0)];
     for g in &f.glyphs {
         let mut contours = vec![];
@@ -126,6 +128,9 @@ pub fn build(f: &PFont) -> Vec<u8> {
     cvt.resize(N_CVT, 0);
     let be: Vec<u8> = cvt.iter().flat_map(|v| v.to_be_bytes()).collect();
     fb.add_raw(read_fonts::types::Tag::new(b"cvt "), be);
+    if !f.prep.is_empty() {
+        fb.add_raw(read_fonts::types::Tag::new(b"prep"), assemble(&f.prep));
+    }
     fb.build()
 }
 
@@ -651,6 +656,132 @@ impl G<'_> {
     }
 }
 
+/// a control value program: everything happens in the twilight zone (the glyph zone is empty there);
+/// what it leaves behind — cvt, twilight points, cut-ins, minimum distance, single width, delta base and
+/// shift, auto flip, instruct control bit 2 (selector 3: backward compatibility off) — is what the glyph
+/// programs of the font start from.  Selectors 1 and 2 of INSTCTRL are left to the `info` edge family.
+fn gen_prep(rng: &mut Rng) -> (Vec<AOp>, String) {
+    let mut g = G { rng, ops: vec![], n: N_TWI as i32, ncont: 1, ends: vec![], zp: [1, 1, 1], bc: false, iupx: false, iupy: false, cvt_used: true, kinds: vec![], mag: 1 };
+    g.push(0);
+    g.op(SZPS);
+    g.zp = [0, 0, 0];
+    let steps = g.rng.range(3, 12);
+    for _ in 0..steps {
+        match g.rng.below(16) {
+            0..=2 => {
+                // retained state setters (no zone changes, no UTP on the glyph zone)
+                match g.rng.below(7) {
+                    0 => {
+                        let v = *g.rng.pick(&[0, 1, 32, 63, 64, 65, 128, 20]);
+                        g.push(v);
+                        g.op(SMD);
+                    }
+                    1 => {
+                        let v = *g.rng.pick(&[0, 1, 10, 17, 68, 69, 200, 20000]);
+                        g.push(v);
+                        g.op(SCVTCI);
+                    }
+                    2 => {
+                        let v = g.rng.range(-300, 300) as i32;
+                        g.push(v);
+                        g.op(SSW);
+                    }
+                    3 => {
+                        let c = *g.rng.pick(&[0, 1, 30, 64]);
+                        g.push(c);
+                        g.op(SSWCI);
+                    }
+                    4 => {
+                        let o = if g.rng.chance(1, 2) { FLIPON } else { FLIPOFF };
+                        g.op(o);
+                    }
+                    5 => {
+                        let v = g.rng.range(0, 20) as i32;
+                        g.push(v);
+                        g.op(SDB);
+                    }
+                    _ => {
+                        let v = g.rng.range(0, 6) as i32;
+                        g.push(v);
+                        g.op(SDS);
+                    }
+                }
+                g.kinds.push("p-state");
+            }
+            3 | 4 => {
+                // INSTCTRL selector 3: 4 sets the bit, 0 clears it, anything else is ignored
+                let v = *g.rng.pick(&[4, 4, 0, 5, 1]);
+                g.push(v);
+                g.push(3);
+                g.op(INSTCTRL);
+                g.kinds.push("p-instctrl3");
+            }
+            5 | 6 => {
+                let c = g.rng.below(N_CVT as u64) as i32;
+                let v = g.dist();
+                g.push(c);
+                g.push(v);
+                let f = g.rng.chance(1, 2);
+                g.op(if f { WCVTF } else { WCVTP });
+                g.kinds.push("p-wcvt");
+            }
+            7 => {
+                let hi = *g.rng.pick(&[7, 4, 7, 4, 6]);
+                let lo = g.rng.below(16) as i32;
+                let c = g.rng.below(N_CVT as u64) as i32;
+                g.push(hi * 16 + lo);
+                g.push(c);
+                g.push(1);
+                let o = *g.rng.pick(&[DELTAC1, DELTAC2, DELTAC3]);
+                g.op(o);
+                g.kinds.push("p-deltac");
+            }
+            8..=10 => {
+                // place twilight points: MIAP sets original and current position from a cvt value
+                let x = g.rng.chance(1, 2);
+                g.op(if x { SVTCA_X } else { SVTCA_Y });
+                let p = g.pt(0);
+                let c = g.rng.below(N_CVT as u64) as i32;
+                g.push(p);
+                g.push(c);
+                let a = g.rng.below(2) as u8;
+                g.op(MIAP + a);
+                g.kinds.push("p-miap");
+            }
+            11 => {
+                let p = g.pt(0);
+                let r = g.pt(0);
+                g.push(r);
+                g.op(SRP0);
+                let d = g.dist();
+                g.push(p);
+                g.push(d);
+                g.op(MSIRP);
+                g.kinds.push("p-msirp");
+            }
+            12 => {
+                let p = g.pt(0);
+                let v = g.dist();
+                g.push(p);
+                g.push(v);
+                g.op(SCFS);
+                g.kinds.push("p-scfs");
+            }
+            13 => {
+                let n = *g.rng.pick(&[0, 0xFF, 0x100 | 16, 0x100 | 13, 0x100 | 12, 0x800 | 13, 0x800 | 16, 0x900 | 14, 0x1FF, 0x3F00 | 20]);
+                g.push(n);
+                g.op(SCANCTRL);
+                g.kinds.push("p-scanctrl");
+            }
+            _ => {
+                g.vectors();
+            }
+        }
+    }
+    let label = g.kinds.join(",");
+    (g.ops, label)
+}
+
 fn gen_glyph(rng: &mut Rng, bc: bool, idx: usize) -> PGlyph {
     let mag = (idx % 3) as u8;
     let ncont = rng.range(1, 3) as usize;
@@ -814,6 +945,13 @@ fn request(f: &PFont, g: &PGlyph, ppem: u32, mode: Mode) -> String {
         v.push(*o as i64);
         v.push(*imm as i64);
     }
+    if !f.prep.is_empty() {
+        v.push(f.prep.len() as i64);
+        for (o, imm) in &f.prep {
+            v.push(*o as i64);
+            v.push(*imm as i64);
+        }
+    }
     v.iter().map(|x| x.to_string()).collect::<Vec<_>>().join(" ")
 }
 
@@ -934,7 +1072,7 @@ pub fn run(cfg: &Config, s: &mut Session) {
     let mut rng = Rng::new(cfg.seed ^ 0x9406);
     let lib = freetype::Library::init().unwrap();
     for bc in [false, true] {
-        let f = PFont { upem: 1024, cvt: vec![0; N_CVT], glyphs: directed(bc) };
+        let f = PFont { upem: 1024, cvt: vec![0; N_CVT], glyphs: directed(bc), prep: vec![] };
         if !f.glyphs.is_empty() {
             let mut rec = 0;
             run_font(cfg, s, &lib, &f, &format!("c03_prog_directed_{}", if bc { "bc" } else { "mono" }), 16, if bc { Mode::Normal } else { Mode::Mono }, &mut rec);
@@ -956,12 +1094,12 @@ pub fn run(cfg: &Config, s: &mut Session) {
         for bc in [false, true] {
             let count = if upem == 1024 { n_glyphs } else { n_glyphs / 3 };
             let glyphs: Vec<PGlyph> = (0..count).map(|i| gen_glyph(&mut rng, bc, i)).collect();
-            let f = PFont { upem, cvt: cvt.clone(), glyphs };
+            let f = PFont { upem, cvt: cvt.clone(), glyphs, prep: vec![] };
             let name = format!("c03_prog_{label}_{}", if bc { "bc" } else { "mono" });
             if bc {
                 run_font(cfg, s, &lib, &f, &name, ppem, Mode::Normal, &mut recorded);
                 // the other smooth targets differ only in GETINFO: a slice of the font
-                let few = PFont { upem, cvt: cvt.clone(), glyphs: f.glyphs.iter().filter(|g| g.label.contains("info")).take(60).cloned().collect() };
+                let few = PFont { upem, cvt: cvt.clone(), glyphs: f.glyphs.iter().filter(|g| g.label.contains("info")).take(60).cloned().collect(), prep: vec![] };
                 for m in [Mode::Light, Mode::Lcd, Mode::VLcd] {
                     run_font(cfg, s, &lib, &few, &format!("{name}_info"), ppem, m, &mut recorded);
                 }
@@ -969,5 +1107,22 @@ pub fn run(cfg: &Config, s: &mut Session) {
                 run_font(cfg, s, &lib, &f, &name, ppem, Mode::Mono, &mut recorded);
             }
         }
+    }
+    // fonts with a control value program: the retained graphics state, the cvt, the twilight zone and the
+    // backward-compatibility switch (INSTCTRL selector 3) the glyph programs start from
+    let n_fonts = if cfg.thorough() { 400 } else { 60 };
+    for i in 0..n_fonts {
+        let bc = i % 2 == 1;
+        let (upem, ppem) = if i % 5 == 4 { (1000u16, 13u32) } else { (1024, 16) };
+        let (prep, plabel) = gen_prep(&mut rng);
+        for k in plabel.split(',') {
+            if !k.is_empty() {
+                s.count(&format!("prog:kind:{k}"));
+            }
+        }
+        let glyphs: Vec<PGlyph> = (0..25).map(|j| gen_glyph(&mut rng, bc, j)).collect();
+        let f = PFont { upem, cvt: cvt.clone(), glyphs, prep };
+        let mode = if !bc { Mode::Mono } else { *rng.pick(&[Mode::Normal, Mode::Normal, Mode::Light, Mode::Lcd, Mode::VLcd]) };
+        run_font(cfg, s, &lib, &f, &format!("c03_prog_prep_{i}"), ppem, mode, &mut recorded);
     }
 }
